@@ -86,7 +86,7 @@ package engine
 
 // The start-up loop: one instance per start-up token, ids 0,1,2,... in spawn order.
 //@ func (p *instancePool) startInstances
-//@ props C12 C05
+//@ props C12 C05 C11
 //@ loop 0 invariant waiter.lastNow <= now
 //@ loop 0 invariant [started-counts-spawned] started == ev(spawn) - old(ev(spawn)) && started >= 1
 //@ loop 0 invariant [never-more-than-released] started == ev(token) - old(ev(token))
@@ -203,6 +203,7 @@ package engine
 //@ loop 0 step [real-failure-is-reported] imp(calls(errutil.IsCtxError) - iter(calls(errutil.IsCtxError)) == 1 && !result_of(errutil.IsCtxError, 0), calls(ah.onErrAwaited) - iter(calls(ah.onErrAwaited)) == 1)
 //@ loop 0 invariant [run-cancelled-only-when-all-finished] calls(ah.runCancel) == 0
 //@ loop 0 step [out-of-ammo-stops-only-the-start-of-instances] imp(ah.awaitedInstances == iter(ah.awaitedInstances) + 1 && result_of(<-ah.runRes, 0).Err == outOfAmmoErr && iter(ah.startRes) != nil, calls(ah.instanceStartCancel) - iter(calls(ah.instanceStartCancel)) == 1)
+//@ at call ah.instanceStartCancel assert [start-is-cut-short-only-by-out-of-ammo] res.Err == outOfAmmoErr
 //@ ensures [run-cancelled-only-when-all-finished] calls(ah.runCancel) == 0
 //@ ensures [all-awaited] ah.toWait <= 0 && ah.providerErr == nil && ah.aggregatorErr == nil && ah.startRes == nil && ah.runRes == nil
 //@ at call ah.onErrAwaited#0 assert [provider-cause] cause(arg(err)) == cause(err)
